@@ -63,6 +63,11 @@ def gen_runs(ctx, label, n, small=True):
     for i in range(n):
         mp = G.MPS[i % 4]
         ns = G.legal(rng, mp, small=small)
+        if i % 10 == 7:
+            # multi-digit agent numbers on every side (10..14 agents; one run per 40 with more than 100 first-side agents)
+            ns = G.legal(rng, mp, lo=10, hi=14)
+            if i % 40 == 37 and mp != 'sm':
+                ns.update(n1=rng.randint(101, 120), numinst=1)
         if i % 5 == 4 and mp in ('hr', 'spa', 'ha'):
             # sparse lists: few first-side agents with one-entry lists over many second-side agents, quota sums that
             # give every second-side agent a positive lower quota (some of them are ranked by nobody)
